@@ -297,7 +297,12 @@ def c10_3(ctx: Ctx) -> RuleResult:
                     continue
                 idx = X.at(h_, sub_.slice)
                 filtered = False
-                for _h2, y in deep_subterms(ctx, h_, idx, 4):
+                # the array the index *value* is taken from (positions computed on a filtered copy do not make
+                # the entries of the unfiltered array non-negative)
+                base_ = idx
+                while base_[0] in ("iter", "sub", "item") and len(base_) > 1 and isinstance(base_[1], tuple):
+                    base_ = base_[1]
+                for _h2, y in deep_subterms(ctx, h_, base_, 4):
                     if y[0] == "call" and y[1] in (("global", "numpy.compress"), ("global", "numpy.extract")) and y[2] and contains(y[2][0], lambda z: z[0] == "cmp" and z[1] in (">=", ">", "<", "<=")):
                         filtered = True
                     if y[0] == "sub" and contains(y[2], lambda z: z[0] == "cmp" and z[1] in (">=", ">", "<", "<=")):
